@@ -49,6 +49,40 @@ impl Peek for Gen {
     }
 }
 
+/// Zero-sized, no drop glue, observable Clone/Default: an array of these could be conjured without calling anything
+#[derive(Debug, PartialEq)]
+pub struct Uz;
+impl Clone for Uz {
+    fn clone(&self) -> Uz {
+        CLONE_LOG.with(|l| l.borrow_mut().push(0));
+        Uz
+    }
+}
+impl Default for Uz {
+    fn default() -> Uz {
+        CLONE_LOG.with(|l| l.borrow_mut().push(u32::MAX));
+        Uz
+    }
+}
+impl Elem for Uz {
+    const KIND: &'static str = "zst_no_drop_glue";
+    const NEEDS_DROP: bool = false;
+    fn mk(_: u32) -> Self {
+        Uz
+    }
+    fn get(&self) -> u32 {
+        0
+    }
+    fn norm(_: u32) -> u32 {
+        0
+    }
+}
+impl Peek for Uz {
+    fn peek(&self) -> u32 {
+        0
+    }
+}
+
 #[derive(Clone, Copy, Debug, Serialize, Deserialize, PartialEq, Eq, Hash)]
 pub enum Kind {
     U32,
@@ -56,6 +90,7 @@ pub enum Kind {
     Tracked,
     Zst,
     Gen,
+    Uz,
 }
 
 #[derive(Clone, Copy, Debug, Serialize, Deserialize, PartialEq, Eq, Hash)]
@@ -68,6 +103,9 @@ pub enum Op {
     Fold(u8),
     Clone(u8),
     Default(u8),
+    /// map / zip whose *output* element type is `()` (zero-sized, no destructor) while the inputs are of the case's kind
+    MapToUnit(u8),
+    ZipToUnit(u8),
 }
 
 #[derive(Clone, Debug, Serialize, Deserialize, PartialEq, Eq, Hash)]
@@ -193,6 +231,63 @@ fn exec_typed<T: Elem + Peek + Clone + Default + 'static, N: ArrayLength>(case: 
                 return Err(format!("{what}: result i is not f(a[i], b[i]): {:?} vs {:?}", &got[..got.len().min(6)], &want[..want.len().min(6)]));
             }
         }
+        Op::MapToUnit(f) => {
+            let mut a = mk_a();
+            let mut calls = 0usize;
+            macro_rules! body {
+                () => {
+                    |x| {
+                        let v = pk(&x);
+                        log.push((calls, v, 0));
+                        calls += 1;
+                        drop(x);
+                    }
+                };
+            }
+            let got: usize = match f {
+                0 => a.map(body!()).len(),
+                1 => (&a).map(body!()).len(),
+                2 => (&mut a).map(body!()).len(),
+                _ => Box::new(a).map(body!()).len(),
+            };
+            let want_log: Vec<(usize, u32, u32)> = (0..n).map(|i| (i, av[i], 0)).collect();
+            check_log(&what, &log, &want_log)?;
+            if got != n {
+                return Err(format!("{what}: result has {got} elements"));
+            }
+        }
+        Op::ZipToUnit(f) => {
+            let mut a = mk_a();
+            let mut b = mk_b();
+            let mut calls = 0usize;
+            macro_rules! body {
+                () => {
+                    |l, r| {
+                        let (lv, rv) = (pk(&l), pk(&r));
+                        log.push((calls, lv, rv));
+                        calls += 1;
+                        drop((l, r));
+                    }
+                };
+            }
+            let got: usize = match f {
+                0 => a.zip(b, body!()).len(),
+                1 => a.zip(&b, body!()).len(),
+                2 => a.zip(&mut b, body!()).len(),
+                3 => (&a).zip(b, body!()).len(),
+                4 => (&a).zip(&b, body!()).len(),
+                5 => (&a).zip(&mut b, body!()).len(),
+                6 => (&mut a).zip(b, body!()).len(),
+                7 => (&mut a).zip(&b, body!()).len(),
+                8 => (&mut a).zip(&mut b, body!()).len(),
+                _ => Box::new(a).zip(Box::new(b), body!()).len(),
+            };
+            let want_log: Vec<(usize, u32, u32)> = (0..n).map(|i| (i, av[i], bv[i])).collect();
+            check_log(&what, &log, &want_log)?;
+            if got != n {
+                return Err(format!("{what}: result has {got} elements"));
+            }
+        }
         Op::Fold(f) => {
             let mut a = mk_a();
             let mut calls = 0usize;
@@ -252,7 +347,7 @@ fn exec_typed<T: Elem + Peek + Clone + Default + 'static, N: ArrayLength>(case: 
                     return Err(format!("{what}: T::clone was not called once per index in ascending order (identities of the clones: {:?})", &ids[..ids.len().min(8)]));
                 }
             }
-            if T::KIND == "gen_no_drop_glue" {
+            if T::KIND == "gen_no_drop_glue" || T::KIND == "zst_no_drop_glue" {
                 let l = CLONE_LOG.with(|l| l.borrow().clone());
                 if l != av {
                     return Err(format!("{what}: T::clone call log {:?}, expected one call per element in index order {:?}", &l[..l.len().min(8)], &av[..av.len().min(8)]));
@@ -287,7 +382,7 @@ fn exec_typed<T: Elem + Peek + Clone + Default + 'static, N: ArrayLength>(case: 
                     return Err(format!("{what}: T::default was called {} times, expected {n}", registry::calls() - 1));
                 }
             }
-            if T::KIND == "gen_no_drop_glue" {
+            if T::KIND == "gen_no_drop_glue" || T::KIND == "zst_no_drop_glue" {
                 let l = CLONE_LOG.with(|l| l.borrow().len());
                 if l != n + 1 {
                     return Err(format!("{what}: T::default was called {} times, expected {n}", l - 1));
@@ -327,6 +422,7 @@ pub fn exec(case: &Case, acc: &mut Acc) -> Result<(), String> {
         Kind::Tracked => lens8!(case.n, N, exec_typed::<Tracked, N>(case, acc)),
         Kind::Zst => lens8!(case.n, N, exec_typed::<TrackedZst, N>(case, acc)),
         Kind::Gen => lens8!(case.n, N, exec_typed::<Gen, N>(case, acc)),
+        Kind::Uz => lens8!(case.n, N, exec_typed::<Uz, N>(case, acc)),
     }
 }
 
@@ -335,7 +431,7 @@ fn grid(draws: u32, seed: u64) -> Vec<Case> {
     let mut x = seed.wrapping_mul(0x9E37_79B9_7F4A_7C15) | 1;
     let all: Vec<(usize, bool)> = LENS.iter().map(|n| (*n, false)).chain(WIDE_EXTRA.iter().map(|n| (*n, true))).collect();
     for &(n, wide_only) in &all {
-        for kind in [Kind::U32, Kind::Str, Kind::Tracked, Kind::Zst, Kind::Gen] {
+        for kind in [Kind::U32, Kind::Str, Kind::Tracked, Kind::Zst, Kind::Gen, Kind::Uz] {
             if wide_only && kind != Kind::U32 {
                 continue;
             }
@@ -347,6 +443,14 @@ fn grid(draws: u32, seed: u64) -> Vec<Case> {
             }
             for f in 0..10 {
                 ops.push(Op::Zip(f));
+            }
+            if !wide_only {
+                for f in 0..4 {
+                    ops.push(Op::MapToUnit(f));
+                }
+                for f in 0..10 {
+                    ops.push(Op::ZipToUnit(f));
+                }
             }
             for f in 0..2 {
                 ops.push(Op::Clone(f));
@@ -391,7 +495,7 @@ pub fn main() {
         Report {
             prop: PROP,
             level: "exploration",
-            rule: "case = (operation and receiver/argument form, N in {0..8,12,16,17,33,64,256,1024} (u32 elements additionally 9,15,31,63,65,100,127,129,200,255,257,300,511,513,1000,1023,2048,4096), element kind, seeded element values): generate x4 forms (owned, via &, via &mut, boxed), map x4, zip x10 (nine stack forms + boxed x boxed), fold x4, Clone (stack, boxed), Default (stack, default_boxed); element kinds u32, String, drop-tracked, zero-sized tracked, and a type without drop glue whose Clone/Default are observable. \
+            rule: "case = (operation and receiver/argument form, N in {0..8,12,16,17,33,64,256,1024} (u32 elements additionally 9,15,31,63,65,100,127,129,200,255,257,300,511,513,1000,1023,2048,4096), element kind, seeded element values): generate x4 forms (owned, via &, via &mut, boxed), map x4, zip x10 (nine stack forms + boxed x boxed), fold x4, Clone (stack, boxed), Default (stack, default_boxed); element kinds u32, String, drop-tracked, zero-sized tracked, a type without drop glue whose Clone/Default are observable, and a zero-sized type without drop glue whose Clone/Default are observable; map x4 and zip x10 whose output element type is () for every input kind. \
                    Oracle: the stateful, non-commutative closure's call log must be exactly calls 0..N-1 with arguments (i) / (a[i]) / (a[i], b[i]) / (acc, a[i]) in ascending order, and the result must equal the same computation on slices; Clone/Default order is observed through identities and call logs. \
                    non-trivial = N >= 2; distinct = distinct (form, N, kind, values)",
             exhaustive: false,
